@@ -35,7 +35,7 @@ func init() {
 			"encoder-only types (CertValidationLevel, SubjAuthKeyId, ExtendedKeyUsageExtension, SignedCertificateTimestamp): totality and determinism. " +
 			"non-trivial = a value inside the stated domain whose encoding succeeded, so that decoding and comparison were actually performed (encoder-only: encoding succeeded twice); enumerated values are distinct by construction, random ones by (type, encoded JSON)",
 		MinNontrivial:         150000,
-		MinNontrivialThorough: 400000,
+		MinNontrivialThorough: 1000000,
 		Shards:                16,
 		Assumptions: []string{
 			"encoding/json is the JSON implementation the statement refers to (json.Marshal of a pointer to the value, json.Unmarshal into a pointer to a zero value)",
